@@ -164,7 +164,29 @@ class Escape:
                 return False       # fresh call result: never guarded
             return (obj, want) in g
         if callee == "Oomd::CgroupPath::getParent":
-            return ("%s.isRoot()" % obj, False) in g
+            if ("%s.isRoot()" % obj, False) in g:
+                return True
+            # the precondition may be established by the callers: a non-virtual member helper that is only ever called on `this`,
+            # every call dominated by the same test of the same member
+            if obj.startswith("this->") and f.kind == "method" and not f.d.get("virtual") and not getattr(self, "_in_caller_check", False):
+                edges = [e for e in self.cg.callers(f.usr) if isinstance(e.node, int)]
+                ok = bool(edges)
+                for e in edges:
+                    cf = self.prog.fns.get(e.src)
+                    cn = cf.nodes[e.node] if cf is not None else None
+                    if cf is None or cf.cls != f.cls or cn is None or ("recv" in cn and cf.nodes[cf.strip(cn["recv"])]["k"] != "this"):
+                        ok = False
+                        break
+                    try:
+                        gc = self.flow(cf).guards(e.node)
+                    except KeyError:
+                        ok = False
+                        break
+                    if ("%s.isRoot()" % obj, False) not in gc:
+                        ok = False
+                        break
+                return ok
+            return False
         if last == "at" and callee.startswith(("std::map", "std::unordered_map")):
             key = f.text(n["args"][0]) if n.get("args") else "?"
             for k, p in g:
